@@ -22,7 +22,10 @@ Definition enc_pres (r : pres str) : val :=
   end.
 
 Definition dispatch (f : str) (a : val) : val :=
-  if str_eqb f (B "escapeString") then on_str a (fun s => enc_esc (escape_string s))
+  if str_eqb f (B "EscapePath") then on_str a (fun s => enc_esc (escape_path s))
+  else if str_eqb f (B "EscapeVersion") then on_str a (fun s => enc_esc (escape_version s))
+  else if str_eqb f (B "UnescapePath") then on_str a (fun s => enc_esc (unescape_path s))
+  else if str_eqb f (B "UnescapeVersion") then on_str a (fun s => enc_esc (unescape_version s))
   else if str_eqb f (B "PseudoVersion") then
     match a with
     | VL [VS major; VS older; VS ts; VS rv] =>
